@@ -22,6 +22,7 @@ func init() {
 		Run: runC20,
 		Controls: []Control{
 			{Name: "mp-reach-applied-before-mp-unreach", File: "protocols/bgp/server/fsm_address_family.go", Old: "\tif mpUnreachNLRI != nil {\n\t\tf.multiProtocolWithdraw(path, *mpUnreachNLRI)\n\t}\n\n\tif mpReachNLRI != nil {\n\t\tf.multiProtocolUpdate(path, *mpReachNLRI)\n\t}\n", New: "\tif mpReachNLRI != nil {\n\t\tf.multiProtocolUpdate(path, *mpReachNLRI)\n\t}\n\n\tif mpUnreachNLRI != nil {\n\t\tf.multiProtocolWithdraw(path, *mpUnreachNLRI)\n\t}\n", Expect: "withdrawals-applied-before-announcements"},
+			{Name: "unknown-attributes-collected-in-shared-scratch", File: "protocols/bgp/server/fsm_address_family.go", Old: "func (f *fsmAddressFamily) processAttributes(attrs *packet.PathAttribute, path *route.Path) {\n", New: "var c20scratch []types.UnknownPathAttribute\n\nfunc (f *fsmAddressFamily) processAttributes(attrs *packet.PathAttribute, path *route.Path) {\n\tpath.BGPPath.UnknownAttributes = c20scratch[:0]\n", Expect: "decoded-lists-do-not-alias-session-scratch"},
 			{Name: "update-only-offered-to-the-family-it-names", File: "protocols/bgp/server/fsm_established.go", Old: "\tif s.fsm.ipv6Unicast != nil {\n\t\ts.fsm.ipv6Unicast.processUpdate(u, bmpPostPolicy, timestemp)\n\t}\n", New: "\tif s.fsm.ipv6Unicast != nil && u.NLRI == nil {\n\t\ts.fsm.ipv6Unicast.processUpdate(u, bmpPostPolicy, timestemp)\n\t}\n", Expect: "update-offered-to-every-family"},
 			{Name: "withdrawn-routes-cleaned-by-prefix", File: "protocols/bgp/packet/decoder.go", Old: "\tif msg.NLRI != nil && !msg.hasMandatoryAttributes() {", New: "\tif msg.WithdrawnRoutes != nil && msg.NLRI != nil && msg.WithdrawnRoutes.Prefix.Equal(msg.NLRI.Prefix) {\n\t\tmsg.WithdrawnRoutes = msg.WithdrawnRoutes.Next\n\t}\n\tif msg.NLRI != nil && !msg.hasMandatoryAttributes() {", Expect: "decoded-lists-delivered-as-decoded"},
 			{Name: "classic-nlri-copy-the-mp-template", File: "protocols/bgp/server/fsm_address_family.go", Old: "\t\tpath := f.newRoutePath(bmpPostPolicy, timestamp)\n\t\tf.processAttributes(u.PathAttributes, path)\n\t\tpath.BGPPath.PathIdentifier = r.PathIdentifier\n", New: "\t\tpath := f.newRoutePath(bmpPostPolicy, timestamp)\n\t\tf.processAttributes(u.PathAttributes, path)\n\t\tif mp, _ := getMPReachAndUnreachNLRIs(u); mp != nil {\n\t\t\tf.multiProtocolUpdate(path, *mp)\n\t\t\tpath = path.Copy()\n\t\t}\n\t\tpath.BGPPath.PathIdentifier = r.PathIdentifier\n", Expect: "mp-next-hop-stays-in-mp-path"},
@@ -38,6 +39,7 @@ func init() {
 }
 
 func runC20(c *core.Ctx) {
+	decodedListsDoNotAliasSessionScratch(c, "decoded-lists-do-not-alias-session-scratch")
 	mpNextHopStaysInMPPath(c)
 	decodedListsDeliveredAsDecoded(c)
 	withdrawalsAppliedBeforeAnnouncements(c)
